@@ -317,7 +317,7 @@ func init() {
 		Rule: "seeded cases: kill before start / while pending / running / in retry back-off / after completion (kill timestamps now or in the future), pending-timeout and force-delete settings at Job and config level incl. 0 and unset, Pods that never get scheduled, terminate promptly / late / never, forbidTaskForceDeletion; every Pod delete request of a controller is judged (justified or not), fixpoint after all deadlines; " +
 			"non-trivial = at least one controller Pod delete request; distinct = distinct abstract trace",
 		Assume:   []string{"no periodic resync: a deadline whose deferred re-sync is never armed shows as a stuck Job at the fixpoint"},
-		EvalKeys: []string{"C12"},
+		EvalKeys: []string{"C12", "C12_fix", "C12_quiescent"},
 		Build: func(env *core.Env, i int, r *rand.Rand) simCase {
 			o := baseOptions(env, i, r)
 			o.Kubelet = sim.KubeletOptions{FailRate: 35, NeverSched: 4, LateDie: 4, NeverDie: 4, Flap: 8, ExitOnDelete: 3, MaxRun: 40, SlowStart: 4, Sidecar: 5}
@@ -326,8 +326,15 @@ func init() {
 				// transient write failures, also of the very delete that enforces a deadline
 				o.Faults = &sim.RandomFaults{Pct: 15, Kinds: []sim.FaultKind{sim.F500Before, sim.F409Before, sim.F503Before}, R: rand.New(rand.NewSource(o.Seed ^ 0xfc2)), Until: 400}
 			}
-			return simCase{Opt: o, Prof: sim.Profile{MaxJobConfigs: 1, MinJobs: 1, MaxJobs: 4, OwnedBias: 30, Policies: []execution.ConcurrencyPolicy{execution.ConcurrencyPolicyAllow}, Parallel: 45,
-				MaxAttempts: 3, MaxRetryDelay: 15, KillPct: 65, FutureKill: 50, ClearKillPct: 35, DeletePct: 8, StartAfterPct: 15, PendingTimeout: []int64{-1, -1, 0, 6, 20}, ForbidForce: 30, TTL: []int64{600}, ForeignPct: 12}}
+			prof := sim.Profile{MaxJobConfigs: 1, MinJobs: 1, MaxJobs: 4, OwnedBias: 30, Policies: []execution.ConcurrencyPolicy{execution.ConcurrencyPolicyAllow}, Parallel: 45,
+				MaxAttempts: 3, MaxRetryDelay: 15, KillPct: 65, FutureKill: 50, ClearKillPct: 35, DeletePct: 8, StartAfterPct: 15, PendingTimeout: []int64{-1, -1, 0, 6, 20}, ForbidForce: 30, TTL: []int64{600}, ForeignPct: 12}
+			if i%5 == 2 {
+				// kills of Jobs that were refused admission half-way: parallel Jobs whose first index runs into a
+				// foreign object on its first or second attempt while the other indexes' tasks are alive
+				prof.Parallel, prof.ForeignPct, prof.KillPct, prof.ClearKillPct, prof.DeletePct, prof.MaxRetryDelay = 100, 70, 90, 0, 0, 3
+				o.Kubelet.FailRate, o.Kubelet.MaxRun = 60, 60
+			}
+			return simCase{Opt: o, Prof: prof}
 		},
 		NonTrivial: func(w *sim.World) bool { return w.Mon.Evals["C12"] > 0 },
 	})
